@@ -52,7 +52,7 @@ func (r *astRun) fileSet(fs []pgs.File) (idxs []int, dup bool) {
 	return
 }
 
-func observeC04(r *astRun) c04Obs {
+func observeC04(r *astRun, reverse bool) c04Obs {
 	o := c04Obs{Files: []fileImp{}, Ents: []impRec{}}
 	if r.failed {
 		o.Failed = true
@@ -64,11 +64,17 @@ func observeC04(r *astRun) c04Obs {
 			files[en.ref.File] = f
 		}
 	}
-	for i, f := range files {
+	o.Files = make([]fileImp, len(files))
+	for k := range files {
+		i := k
+		if reverse {
+			i = len(files) - 1 - k
+		}
+		f := files[i]
 		fi := fileImp{File: i, Imports: []int{}}
 		if f == nil {
 			fi.File = -1
-			o.Files = append(o.Files, fi)
+			o.Files[i] = fi
 			continue
 		}
 		for _, d := range f.Imports() {
@@ -79,7 +85,7 @@ func observeC04(r *astRun) c04Obs {
 		fi.Dependents, d2 = r.fileSet(f.Dependents())
 		fi.Unused, d3 = r.fileSet(f.UnusedImports())
 		fi.Dup = d1 || d2 || d3
-		o.Files = append(o.Files, fi)
+		o.Files[i] = fi
 	}
 	for _, en := range allEntities(r) {
 		switch en.kind {
